@@ -256,9 +256,15 @@ def parse_lines(raw):
     return [Line(l) for l in raw if l.strip() and not l.startswith('SKIP')]
 
 
-def diff_ulp(impl_words, model_words, prec, in_words=()):
-    """max |impl − model| in eps units of the largest finite entry among outputs (and inputs).
-    Returns (err, detail)."""
+# ops whose result is a product of two input-sized factors (gradient aᵀ·J(a), Hessian JᵀJ + …): the
+# intermediate products have magnitude |a|², so rounding-order differences between Eigen and the model
+# are of order eps·|a|² even where the exact result cancels to something small (DESIGN §8.6)
+QUADRATIC_OPS = ('dr_rminus_sqn', 'd2r_rminus_sqn')
+
+
+def diff_ulp(impl_words, model_words, prec, in_words=(), quadratic=False):
+    """max |impl − model| in eps units of the largest finite entry among outputs (and inputs; for
+    `quadratic` ops also the square of the largest input).  Returns (err, detail)."""
     if len(impl_words) != len(model_words):
         return float('inf'), f'length impl={len(impl_words)} model={len(model_words)}'
     iv = [dec(w, prec) for w in impl_words]
@@ -267,6 +273,11 @@ def diff_ulp(impl_words, model_words, prec, in_words=()):
     for a in iv + mv + [dec(w, prec) for w in in_words]:
         if math.isfinite(a):
             scale = max(scale, abs(a))
+    if quadratic:
+        for w in in_words:
+            a = dec(w, prec)
+            if math.isfinite(a):
+                scale = max(scale, a * a)
     worst = 0.0
     for a, b in zip(iv, mv):
         if math.isnan(a) or math.isnan(b):
@@ -304,7 +315,7 @@ def t1_compare(lines, tol_ulp=64.0, exact_ops=(), rng_seed=1, sens_variants=6, s
             continue
         mw = rep.split()
         tol = 0.0 if l.op in exact_ops else tol_ulp
-        err, det = diff_ulp(l.outs, mw, l.prec, l.ins)
+        err, det = diff_ulp(l.outs, mw, l.prec, l.ins, l.op in QUADRATIC_OPS)
         if err <= tol:
             st['worst_ulp'] = max(st['worst_ulp'], err)
         else:
@@ -337,7 +348,7 @@ def t1_compare(lines, tol_ulp=64.0, exact_ops=(), rng_seed=1, sens_variants=6, s
             for r in mine:
                 if r.startswith('ERR'):
                     continue
-                e2, d2 = diff_ulp(mw, r.split(), l.prec, l.ins)
+                e2, d2 = diff_ulp(mw, r.split(), l.prec, l.ins, l.op in QUADRATIC_OPS)
                 if not d2:
                     sens = max(sens, e2)
             if err <= tol + sens_factor * sens:
